@@ -141,6 +141,23 @@ def run(ctx: Ctx):
     nsites = 0
     seen_exempt = set()
     psd_sites = []
+    # a private helper every (transitive) caller of which, inside its module, is an exempt function shares that exemption
+    exempt = set(EXEMPT)
+    for mname, m in sorted(model.modules.items()):
+        if not mname.startswith(SCOPE_PREFIXES):
+            continue
+        callers = {}
+        for f_ in m.functions.values():
+            for c in ast.walk(f_.node):
+                if isinstance(c, ast.Call) and isinstance(c.func, ast.Name) and c.func.id in m.functions and c.func.id != f_.name:
+                    callers.setdefault(m.functions[c.func.id].qualname, set()).add(f_.qualname)
+        changed = True
+        while changed:
+            changed = False
+            for f_ in m.functions.values():
+                if f_.name.startswith("_") and f_.qualname not in exempt and callers.get(f_.qualname) and callers[f_.qualname] <= exempt:
+                    exempt.add(f_.qualname)
+                    changed = True
     for mname, m in sorted(model.modules.items()):
         if not mname.startswith(SCOPE_PREFIXES):
             continue
@@ -153,7 +170,7 @@ def run(ctx: Ctx):
                 if fi.qualname == "pygaps.characterisation.psd_kernel.psd_dft":
                     psd_sites.append(kind)      # units come from the kernel_units parameter: decided below by interpretation
                     continue
-                if fi.qualname in EXEMPT:
+                if fi.qualname in exempt:
                     seen_exempt.add(fi.qualname)
                     ctx.ob(True, nontrivial_key=("exempt", fi.qualname, kind))
                     continue
@@ -233,7 +250,7 @@ def run(ctx: Ctx):
     fi = model.func("pygaps.characterisation.psd_kernel.psd_dft")
     ctx.rule("R-pin (kernel PSD): psd_dft interpreted with a recording reader: without kernel_units the isotherm is read in the documented "
              "kernel representation, a given kernel_units entry reaches the reader unchanged, the others keep their defaults")
-    ctx.floor("isotherm reads in psd_dft", len(psd_sites), 1)
+    ctx.analysed["syntactic isotherm reads in psd_dft"] = len(psd_sites)
     want = {"loading_basis": "molar", "loading_unit": "mmol", "material_basis": "mass", "material_unit": "g",
             "pressure_mode": "relative", "pressure_unit": None}
     given_full = {k: f"<{k}>" for k in want}
